@@ -30,7 +30,12 @@ class World:
             cdir = os.path.join(REPO, 'crates', c, 'src')
             if c in crates or c == 'syntax':
                 for k, v in rustsrc.scan_crate_enums(cdir).items():
-                    self.enums.setdefault(k, v)
+                    if k == '__ambiguous__':
+                        self.enums.setdefault(k, set()).update(v)
+                    else:
+                        if k in self.enums and self.enums[k] != v and '::' not in k:
+                            self.enums.setdefault('__ambiguous__', set()).add(k)
+                        self.enums.setdefault(k, v)
         self.load_s = time.time() - t0
         from . import explore
         explore.reset_pool()
